@@ -330,6 +330,9 @@ pub fn run(cli: Cli) -> ! {
         rep.finish();
     }
     let all = specs(cli.tier.thorough());
+    for s in [&all[0], &all[all.len() - 1]] {
+        assert_deterministic(&build(s), "C03");
+    }
     let distinct: Mutex<HashSet<String>> = Mutex::new(HashSet::new());
     let transfers = AtomicU64::new(0);
     let disconnects = AtomicU64::new(0);
